@@ -56,8 +56,18 @@ func c04Query(i int) (*rego.PreparedEvalQuery, error) {
 }
 
 func smallGraph(t *rapid.T) *m.Graph {
-	atoms := []*m.Atom{{ID: 0, Row: 0, Prop: "p0"}, {ID: 1, Row: 15, Prop: "p1"}, {ID: 2, Row: 21, Prop: "p2"}}
+	atoms := []*m.Atom{{ID: 0, Row: rowOf("pattern"), Prop: "p0"}, {ID: 1, Row: rowOf("in"), Prop: "p1"}, {ID: 2, Row: rowOf("maxCount"), Prop: "p2"}}
 	return randomGraph(t, atoms, []string{"e0"}, 4)
+}
+
+// rowOf returns the first row of the atom table with the given constraint kind.
+func rowOf(kind string) int {
+	for i, r := range m.AtomTable {
+		if r.Kind == kind {
+			return i
+		}
+	}
+	return 0
 }
 
 func genLDOpts(t *rapid.T, n int) m.LDOpts {
